@@ -119,9 +119,11 @@ def _cases(tier):
     for sname, fmt in (("S1", "json"), ("S1", "yaml"), ("S3", "json"), ("S2", "json")):
         n = len(SAMPLES[sname])
         for comp in compositions(n):
-            forms = ["list", "wrapped"] + (["object"] if any(len(p) == 1 for p in comp) else [])
+            forms = ["list", "wrapped", "wrapped3"] + (["object"] if any(len(p) == 1 for p in comp) else [])
             for form in forms:
-                for argform in ("m_each", "l_each", "glob", "two_names", "interleaved", "m_then_l"):
+                for argform in ("m_each", "l_each", "glob", "glob_q", "glob_dir", "glob_rec", "two_names", "interleaved", "m_then_l"):
+                    if argform in ("glob_q", "glob_dir", "glob_rec") and (form != "list" or fmt != "json"):
+                        continue
                     if argform in ("two_names", "interleaved", "m_then_l") and len(comp) < 2:
                         continue
                     if argform == "l_each" and form == "object":
@@ -188,9 +190,14 @@ def materialise(case, d):
             content, lookup = objs, "-"
         elif form == "object":
             content, lookup = objs[0], "-"
+        elif form == "wrapped3":
+            content, lookup = {"d": {"e": {"items": objs, "x.y": 1}, "items": "decoy"}, "items": [{"decoy": 1}]}, "d.e.items"
         else:
             content, lookup = {"d": {"items": objs, "other": 1}, "meta": {"n": len(objs)}}, "d.items"
         name = f"f{i}.{ext}"
+        if case["arg"] in ("glob_dir", "glob_rec"):
+            os.makedirs(os.path.join(d, "in", "deep"), exist_ok=True)
+            name = os.path.join("in", name) if case["arg"] == "glob_dir" or i % 2 == 0 else os.path.join("in", "deep", name)
         with open(os.path.join(d, name), "w", encoding="utf8") as f:
             f.write(_dump(case["fmt"], content))
         files.append((name, lookup, objs))
@@ -207,9 +214,10 @@ def materialise(case, d):
         for fn, lk, _ in files:
             argv += ["-l", "Root", lk, fn]
         refs = [[("Root", [o for _, _, objs in files for o in objs])]]
-    elif arg == "glob":
+    elif arg in ("glob", "glob_q", "glob_dir", "glob_rec"):
         lk = files[0][1]
-        argv += ["-m", "Root", f"f*.{ext}"] if lk == "-" else ["-m", "Root", lk, f"f*.{ext}"]
+        pat = {"glob": f"f*.{ext}", "glob_q": f"f?.{ext}", "glob_dir": f"in/f*.{ext}", "glob_rec": f"in/**/f*.{ext}"}[arg]
+        argv += ["-m", "Root", pat] if lk == "-" else ["-m", "Root", lk, pat]
         refs = [[("Root", [o for _, _, objs in perm for o in objs])] for perm in itertools.permutations(files)]
     elif arg == "two_names":
         for i, (fn, lk, _) in enumerate(files):
